@@ -16,25 +16,25 @@ Definition placeholder (i : nat) : str :=
 Fixpoint number_from {A} (i : nat) (l : list A) : list (nat * A) :=
   match l with [] => [] | x :: l' => (i, x) :: number_from (S i) l' end.
 
-Definition extract_atomic_constructs (text : str) : M (list str * str) :=
-  dec <- of_fuel (finditer re_atomic text) ;;
+Definition extract_atomic_constructs (text : str) : list str * str :=
+  let dec := finditer_t re_atomic text in
   let numbered := number_from 0 (fst dec) in
-  ret (map (fun gm => m_text (snd gm)) (fst dec),
-       concat (map (fun igm => fst (snd igm) ++ placeholder (fst igm)) numbered) ++ snd dec).
+  (map (fun gm => m_text (snd gm)) (fst dec),
+   concat (map (fun igm => fst (snd igm) ++ placeholder (fst igm)) numbered) ++ snd dec).
 
 Definition restore_token (constructs : list (nat * str)) (tok : str) : str :=
   fold_left (fun t ic => str_replace (placeholder (fst ic)) (snd ic) t) constructs tok.
 
 Definition html_md_word_splitter (text : str) : M (list str) :=
   t <- normalize_adjacent_tags text ;;
-  ex <- extract_atomic_constructs t ;;
+  let ex := extract_atomic_constructs t in
   let constructs := number_from 0 (fst ex) in
   ret (map (restore_token constructs) (split_ws (snd ex))).
 
 (* ---- markdown_escape_word driven by the translated patterns _md_numeral_pat /
-   _md_specials_pat (out-of-fuel, which Proofs/RegexFacts shows impossible, reads as no match) ---- *)
+   _md_specials_pat ---- *)
 Definition rx_matches (p : pattern) (w : str) : bool :=
-  match re_match p w with Some (Some _) => true | _ => false end.
+  match re_match_t p w with Some _ => true | None => false end.
 
 Definition escape_rx (w : word) : word :=
   if rx_matches re_md_numeral w then
@@ -69,9 +69,8 @@ Definition wrap_paragraph (text : str) (width : Z) (i1 i2 : str) (ic : Z) (rw dw
   denormalize_adjacent_tags (join [nl] (add_indents i1 i2 (ic =? 0) lines)).
 
 (* ---- hard breaks ---- *)
-Definition split_markdown_hard_breaks (text : str) : M (list str) :=
-  r <- of_fuel (re_split re_line_break text) ;;
-  ret (map (fun o => match o with Some s => s | None => [] end) r).
+Definition split_markdown_hard_breaks (text : str) : list str :=
+  map (fun o => match o with Some s => s | None => [] end) (re_split_t re_line_break text).
 
 Fixpoint wrap_hard_segments (base : wrapper) (segs : list str) (first : bool) (i1 i2 : str)
   : M (list str) :=
@@ -86,7 +85,7 @@ Fixpoint wrap_hard_segments (base : wrapper) (segs : list str) (first : bool) (i
 
 Definition add_markdown_hard_break_handling (base : wrapper) : wrapper :=
   fun text i1 i2 =>
-    segs <- split_markdown_hard_breaks text ;;
+    let segs := split_markdown_hard_breaks text in
     match segs with
     | [] => ret []
     | [_] => base text i1 i2
@@ -99,50 +98,59 @@ Definition line_wrap_to_width (width : Z) (md : bool) : wrapper :=
   if md then add_markdown_hard_break_handling (add_tag_newline_handling lw) else lw.
 
 (* ---- split_sentences_regex ---- *)
-Definition heuristic_end_of_sentence (w : str) : M bool :=
-  r <- of_fuel (re_search re_sentence_end w) ;;
-  ret (match r with Some _ => true | None => false end).
+Definition heuristic_end_of_sentence (w : str) : bool :=
+  match re_search_t re_sentence_end w with Some _ => true | None => false end.
 
-Fixpoint split_sentences_loop (heur : str -> M bool) (min_length : Z) (words : list str)
-  (sent_rev : list str) (words_len : Z) : M (list str) :=
+(* the loop of split_sentences_regex over the word list; sentences as word lists *)
+Fixpoint split_sentences_loop (heur : str -> bool) (min_length : Z) (words : list str)
+  (sent_rev : list str) (words_len : Z) : list (list str) :=
   match words with
-  | [] => ret (match sent_rev with [] => [] | _ => [join [sp] (rev sent_rev)] end)
+  | [] => match sent_rev with [] => [] | _ => [rev sent_rev] end
   | w :: rest =>
       let sent_rev' := w :: sent_rev in
       let words_len' := words_len + len w in
       let sentence_len := words_len' + Z.of_nat (length sent_rev') - 1 in
-      h <- heur w ;;
-      if h && (min_length <=? sentence_len) then
-        r <- split_sentences_loop heur min_length rest [] 0 ;;
-        ret (join [sp] (rev sent_rev') :: r)
+      if heur w && (min_length <=? sentence_len) then
+        rev sent_rev' :: split_sentences_loop heur min_length rest [] 0
       else split_sentences_loop heur min_length rest sent_rev' words_len'
   end.
 
-Definition split_sentences_regex (text : str) (min_length : Z) : M (list str) :=
-  split_sentences_loop heuristic_end_of_sentence min_length (split_ws text) [] 0.
+Definition split_sentences_with (heur : str -> bool) (text : str) (min_length : Z) : list str :=
+  map (join [sp]) (split_sentences_loop heur min_length (split_ws text) [] 0).
+
+Definition split_sentences_regex (text : str) (min_length : Z) : list str :=
+  split_sentences_with heuristic_end_of_sentence text min_length.
 
 (* ---- line_wrap_by_sentence ---- *)
-Fixpoint sentence_loop (width min_line_len : Z) (md : bool) (i1len i2len : Z)
-  (sentences : list str) (lines_rev : list str) (first : bool) : M (list str) :=
-  match sentences with
-  | [] => ret (rev lines_rev)
-  | s :: rest =>
-      let col0 := if first then i1len else i2len in
-      let col := match lines_rev with
-                 | last :: _ => if len last <? min_line_len then col0 + len last else col0
-                 | [] => col0
-                 end in
-      wrapped <- wrap_paragraph_lines_md s width col i2len true true md ;;
-      let lines_rev' :=
-        match lines_rev, wrapped with
-        | last :: lr, w0 :: wr =>
-            if (len last <? min_line_len) && (len last + 1 + len w0 <=? width)
-            then rev wr ++ (last ++ [sp] ++ w0) :: lr
-            else rev wrapped ++ lines_rev
-        | _, _ => rev wrapped ++ lines_rev
-        end in
-      sentence_loop width min_line_len md i1len i2len rest lines_rev' false
-  end.
+(* the loop over sentences, generic in the function wrapping one sentence from a column *)
+Section SentenceLoop.
+  Variable wrapf : str -> Z -> M (list str).
+  Variables (width min_line_len i1len i2len : Z).
+
+  Definition sentence_step (s : str) (lines_rev : list str) (first : bool) : M (list str) :=
+    let col0 := if first then i1len else i2len in
+    let col := match lines_rev with
+               | last :: _ => if len last <? min_line_len then col0 + len last else col0
+               | [] => col0
+               end in
+    wrapped <- wrapf s col ;;
+    ret (match lines_rev, wrapped with
+         | last :: lr, w0 :: wr =>
+             if (len last <? min_line_len) && (len last + 1 + len w0 <=? width)
+             then rev wr ++ (last ++ [sp] ++ w0) :: lr
+             else rev wrapped ++ lines_rev
+         | _, _ => rev wrapped ++ lines_rev
+         end).
+
+  Fixpoint sentence_loop (sentences : list str) (lines_rev : list str) (first : bool)
+    : M (list str) :=
+    match sentences with
+    | [] => ret (rev lines_rev)
+    | s :: rest =>
+        lines_rev' <- sentence_step s lines_rev first ;;
+        sentence_loop rest lines_rev' false
+    end.
+End SentenceLoop.
 
 Definition add_indents_sentence (i1 i2 : str) (lines : list str) : list str :=
   match lines with
@@ -157,8 +165,9 @@ Definition line_wrap_by_sentence_base (width min_line_len : Z) (md : bool) : wra
     let text := replace_ch 10 32 text in
     if width <=? 0 then ret (i1 ++ strip text)
     else
-      sentences <- split_sentences_regex text 0 ;;
-      lines <- sentence_loop width min_line_len md (len i1) (len i2) sentences [] true ;;
+      let sentences := split_sentences_regex text 0 in
+      lines <- sentence_loop (fun s col => wrap_paragraph_lines_md s width col (len i2) true true md)
+                 width min_line_len (len i1) (len i2) sentences [] true ;;
       denormalize_adjacent_tags (join [nl] (add_indents_sentence i1 i2 lines)).
 
 Definition line_wrap_by_sentence (width min_line_len : Z) (md : bool) : wrapper :=
@@ -183,9 +192,8 @@ Definition wm_first_para_only (m : wrap_mode) : bool :=
 Definition wm_replace_ws (m : wrap_mode) : bool :=
   match m with WWrapFull | WWrapIndent | WHangingIndent => true | _ => false end.
 
-Definition split_paragraphs (text : str) : M (list str) :=
-  r <- of_fuel (re_split re_para_split text) ;;
-  ret (map (fun o => strip (match o with Some s => s | None => [] end)) r).
+Definition split_paragraphs (text : str) : list str :=
+  map (fun o => strip (match o with Some s => s | None => [] end)) (re_split_t re_para_split text).
 
 Fixpoint fill_paragraphs (width : Z) (i1 i2 : str) (ic : Z) (rw : bool) (first_only : bool)
   (paras : list str) (is_first : bool) : M (list str) :=
@@ -211,6 +219,6 @@ Definition fill_text (text : str) (mode : wrap_mode) (width : Z) (extra_indent e
     let i1 := extra_indent ++ wm_initial_indent mode in
     let i2 := extra_indent ++ wm_subsequent_indent mode in
     let width := width - len i2 in
-    paras <- split_paragraphs text ;;
+    let paras := split_paragraphs text in
     wrapped <- fill_paragraphs width i1 i2 ic (wm_replace_ws mode) (wm_first_para_only mode) paras true ;;
     ret (join ([nl] ++ empty_indent ++ [nl]) wrapped).
